@@ -14,7 +14,8 @@ MANIFEST = {
                   "pending + n - 64 pending bits become zeros; EBSPReader.Read(n) for every n returns the true value modulo 2^(64 - k), "
                   "k = bits left pending, with the stream position always right, hence exact whenever n + k <= 64 (every n <= 57); "
                   "witnesses show both bounds tight (7 pending bits + Write(1, 58) corrupts the previous value, Read(58) after 7 bits "
-                  "loses its top bit). Reader.ReadSigned's 64-bit sign extension is two's complement for every width 1..64 and inverts "
+                  "loses its top bit). EBSPReader.ReadBytes(k) at ANY bit alignment returns the next k bytes of the unescaped stream, k "
+                  "unbounded (C13_reader_bytes_unaligned). Reader.ReadSigned's 64-bit sign extension is two's complement for every width 1..64 and inverts "
                   "the writer's masking of a signed value; ReadSignedGolomb's conversions never overflow int. Exp-Golomb: the "
                   "repaired WriteExpGolomb (repo commit 9ec0951) codes every value <= 2^57 - 2 exactly and refuses every larger one with the "
                   "error set and nothing written (before the repair 2^57 - 1 after 7 pending bits silently corrupted the value written "
@@ -106,6 +107,16 @@ def run(ctx):
     for f in fails:
         ctx.failing_input(f[1], f[2], f[3], f[4])
     ctx.log("search: %d failing inputs" % len(fails))
+    ctx.notes["alignment_sweep"] = (
+        "harness/c13/sweep.go, in corr AND search on every run: every reader / writer method (Read, ReadFlag, ReadExpGolomb, "
+        "ReadSignedGolomb, ReadBytes, MoreRbspData, ReadRbspTrailingBits, Reader.Read / ReadSigned; EBSPWriter Write / "
+        "WriteExpGolomb / WriteSEIValue / StuffByteWithZeros / WriteRbspTrailingBits, Writer.Write / Flush, FixedSliceWriter "
+        "WriteBits / FlushBits / WriteBytes / WriteZeroBytes / WriteUintN / WriteIntN / WriteUnityMatrix) at every bit alignment "
+        "0..7 with every size class (0, 1, 7, 8, 9, 16, 17, 64, 65, 71 bytes; widths 0..64 at the byte and word boundaries; "
+        "Exp-Golomb codes of 1..63 bits), on high-bit data and on escape-rich data, counters observed after every op; search "
+        "oracle = independent bit packer + naiveEscape (values where width + pending bits <= 64, positions in the escaped "
+        "stream); theorem C13_reader_bytes_unaligned states ReadBytes for any alignment. Closes the miss 'ReadBytes fetching "
+        "eight bytes per Read(64)' (wrong only unaligned with n >= 8): 77 failing inputs + 77 model mismatches on that change")
     ctx.notes["hygiene_oracles"] = (
         "harness/c13/hygiene.go: reader op sequences (written streams with look-aheads mixed in, arbitrary zero-heavy data) also on a "
         "bytes.Reader over a guarded sub-slice, on ReadSeekers handing out one byte per Read / data together with io.EOF "
